@@ -519,6 +519,13 @@ func (dec *Decoder) initFrame() error {
 
 	dec.cacheV = slab[off : off+cacheVSize]
 
+	// Left intra-mode context: initScanline resets it after every completed
+	// row, but a recycled decoder whose previous frame was abandoned in the
+	// middle of a row (truncated data) still carries that row's modes.
+	for i := range dec.intraL {
+		dec.intraL[i] = BDCPred
+	}
+
 	// Crop/filter bounds default to full image.
 	dec.tlMBX = 0
 	dec.tlMBY = 0
